@@ -5,6 +5,11 @@ V = os.path.dirname(os.path.dirname(os.path.abspath(__file__)))
 
 # id -> dict(level, engine, technique, text, note, design)
 CLAIMED = {
+ "C08": dict(level="exploration", engine="vsh-virtual",
+   technique="state-snapshot monitor: deep snapshots of the shell (variables+attributes, positional parameters, functions, aliases, options, traps, cwd, umask, fd table with open-file-description identity, kernel dispositions and mask) before/after in the parent and at subshell entry, under FIFO and random preempting schedules",
+   text="Every one of 40 mutators inside every one of 11 subshell kinds (incl. a substitution forked while a caught signal is pending and a subshell forked inside a trap action) under 2 initial states x FIFO + 2/9 random schedules, then 4*10^4 (quick) / 10^6 random mutator sequences; parent-before == parent-after on all 11 facets, child-entry == parent with command traps reset (and INT/QUIT ignored for asynchronous lists).",
+   note="Trusted: vsh::snapshot covers the listed facets through public accessors of Env and the virtual kernel. Allowed differences: $?, job list/$!, contents of files written through shared open files, descriptors 0-2 (re-plumbed by design) and shell-internal descriptors >= 10 at child entry.",
+   design="5/C08"),
  "C14": dict(level="exploration", engine="vsh-virtual",
    technique="conservation monitor (in = out by length and hash; $(...) = stream minus trailing newlines) over the real shell on the virtual kernel, under FIFO, random preempting and bounded-DFS schedules",
    text="Producer `gen` (pure function of its arguments) and consumer `sink` probes around 1-4 stage pipelines (builtin relays with odd read sizes, while-read loops), three forms of command substitution incl. nested, substitution around pipelines, quoted and expanding here-documents, pipelines started with stdin/stdout closed; payload sizes 0..4096 (thorough 10000) around every buffer boundary of the virtual pipe, newline patterns and 0-3 trailing newlines; 30/80 random schedules per scenario with preemption inside every read/write loop, bounded DFS (<=3 preemptions) for payloads <= 1030 bytes.",
